@@ -11,6 +11,8 @@ INT_POOLS = {
     "collide8": lambda n: [8 * i for i in range(n)],          # all collide in an 8-slot table
     "collide32": lambda n: [32 * i + 1 for i in range(n)],
     "large": lambda n: [10 ** 9 + 7 * i for i in range(n)],
+    "huge": lambda n: [2 ** 53 + 1, 2 ** 63 - 1, 10 ** 18 + 7, 18446744073709551557, 2 ** 53 + 3, 2 ** 61 - 1, 2 ** 64,
+                       10 ** 30, 2 ** 53 + 5, 3 * 10 ** 18][:n],  # 64-bit ids and beyond: a double cannot hold them
     "sparse": lambda n: [3, 17, 4, 100, 64, 9, 1024, 33, 12, 5][:n],
 }
 STR_POOLS = {
@@ -78,6 +80,20 @@ def gen_dataset(rng: random.Random, n_max: int = 6, m_max: int = 6, n_min: int =
             rng.shuffle(b)
     if allow_empty and not complete and rng.random() < 0.12:
         rankings.insert(rng.randrange(len(rankings) + 1), [])  # an empty ranking is a legal input
+    if kind == "int" and not file_safe and "neg" not in pool_name and rng.random() < 0.08:
+        # the same element written in several styles (7, "7", "07"): all names are integer-like, so the dataset is a
+        # dataset of ints whatever the spelling; sometimes two spellings of one element share a bucket
+        def style(v):
+            r = rng.random()
+            return v if r < 0.5 else str(v) if r < 0.8 else "0" + str(v)
+        rankings = [[[style(e) for e in b] for b in r] for r in rankings]
+        if rng.random() < 0.4:
+            cand = [(i, j) for i, r in enumerate(rankings) for j, b in enumerate(r) if b]
+            if cand:
+                i, j = rng.choice(cand)
+                e = rankings[i][j][0]
+                rankings[i][j].append("0" + str(e) if not isinstance(e, str) else int(e))
+        pool_name += "/style-mix"
     if not any(b for r in rankings for b in r):
         rankings[0] = [[pool[0]]]
     spec = {"rankings": rankings, "as_elements": rng.random() < 0.3,
@@ -201,6 +217,23 @@ def gen_scheme(rng: random.Random, dyadic: bool = True) -> dict:
 
 def _gen_scheme(rng: random.Random, dyadic: bool = True) -> dict:
     fam = rng.random()
+    if not dyadic and rng.random() < 0.06:
+        # near-equal penalties of ordinary size (differences of 4e-4 .. 5e-4): far above any solver tolerance, below
+        # the 1e-3 thresholds a "robust" comparison might introduce
+        d = rng.choice([4e-4, 5e-4, 3e-4])
+        base = preset(rng.choice(["unifying", "pseudo", "induced"]), 1.0)
+        s = {"B": list(base["B"]), "T": list(base["T"]), "family": "near-equal"}
+        which = rng.choice(["B2", "T0", "B34", "B5"])
+        if which == "B2":
+            s["B"][2] += d
+        elif which == "T0":
+            s["T"][0] += d
+            s["T"][1] += d
+        elif which == "B34":
+            s["B"][3], s["B"][4] = 0.2, 0.2 + d
+        else:
+            s["B"][5] = s["T"][5] + d
+        return s
     if rng.random() < 0.1:
         # B of a preset (what the library's own equivalence test looks at) with a free valid T, and the converse
         base = preset(rng.choice(PRESETS), rng.choice([0.5, 1.0, 0.25]))
@@ -311,6 +344,23 @@ def gen_alg(rng: random.Random, env: str, heavy_ok: bool = True) -> dict:
     if name == "ParConsAux":
         return {"alg": "ParCons", "aux": dict(rng.choice(AUXILIARIES)), "bound": rng.choice([0, 1, 2, 3, 80])}
     return {"alg": name}
+
+
+def gen_huge_int_scheme(rng: random.Random) -> dict:
+    """Int penalties of the order of 10**k that differ by one unit: every cost stays an exactly representable integer
+    (< 2**53), so exact comparisons remain exact, while any relative tolerance swallows the difference."""
+    base = 10 ** rng.choice([6, 9, 12])
+    near = lambda: base * rng.choice([1, 1, 2, 3]) + rng.choice([-1, 0, 1])
+    b1 = near()
+    b3, b4 = sorted([near(), near()])
+    t0, t3 = near(), near()
+    return {"B": [0, b1, near(), b3, b4, near()], "T": [t0, t0, 0, t3, t3, near()], "family": "huge-near-equal-ints"}
+
+
+def gen_mutation(rng: random.Random) -> dict:
+    """An in-place edit of a shared Dataset between two operations of a history."""
+    return {"mutate": rng.choice(["remove_elements", "remove_empty", "remove_empty", "remove_rate"]),
+            "pick": [rng.randrange(64)], "rate": rng.choice([0.0, 0.3, 0.5])}
 
 
 def gen_sched(rng: random.Random) -> dict:
